@@ -116,12 +116,59 @@ def check_output(rec, fp, label, ds_in, truth, mask, out, tmp, name):
             rec.check(False, f"{fp}/reopened-raised", f"{label}: reopened dataset unusable", truth.convention, str(err))
 
     in_polys = ref.ref_polygons(truth)
+    check_lookup_after_clip(rec, fp, label, ds_in, truth, mask, out, convention, in_polys)
     if truth.family == 'ugrid':
         check_mesh(rec, fp, label, ds_in, truth, mask, out, convention, out_polys, in_polys, path if reopened is not None else None)
     elif truth.get('explicit'):
         check_grid_polygons(rec, fp, label, truth, mask, out_polys, in_polys)
     if reopened is not None:
         reopened.close()
+
+
+def check_lookup_after_clip(rec, fp, label, ds_in, truth, mask, out, convention, in_polys):
+    """Clip, then look a point up / select it / flatten a variable on the result: the clipped dataset must
+    answer with the cell the point belonged to before (two features interacting)."""
+    if truth.family == 'ugrid':
+        kept = clipping.mesh_selection(truth, mask)['face']
+        mapping_ = {old: new for new, old in enumerate(kept)}
+        selected = list(kept)
+    else:
+        if not truth.get('explicit'):
+            return
+        values, slices = clipping.grid_selection(truth, mask)['face']
+        dims = truth.kinds['face']['dims']
+        (j0, j1), (i0, i1) = slices[dims[0]], slices[dims[1]]
+        ncols = truth.kinds['face']['shape'][1]
+        mapping_, selected = {}, []
+        for j in range(j0, j1):
+            for i in range(i0, i1):
+                mapping_[j * ncols + i] = (j - j0) * (i1 - i0) + (i - i0)
+                if values[j, i]:
+                    selected.append(j * ncols + i)
+    botz = truth.vars['botz']
+    labels = ref.expected_values(botz, len(in_polys), truth.shift)
+    try:
+        flat = lib(convention.ravel, out['botz']).values
+    except LibraryRaised as err:
+        rec.check(False, f"{fp}/after-clip-ravel-raised", f"{label}: ravel on the clipped dataset raised", 'values', str(err))
+        return
+    for old in selected[:12]:
+        polygon = in_polys[old]
+        if polygon is None or isinstance(polygon, str):
+            continue
+        new = mapping_[old]
+        point = polygon.representative_point()
+        try:
+            item = lib(convention.get_index_for_point, point)
+        except LibraryRaised as err:
+            rec.check(False, f"{fp}/after-clip-lookup-raised", f"{label}: point lookup on the clipped dataset raised", new, str(err))
+            continue
+        rec.check(item is not None and int(item.linear_index) == new, f"{fp}/after-clip-lookup",
+                  f"{label}: a point inside selected cell {old} is found at the wrong cell of the clipped dataset", new,
+                  None if item is None else int(item.linear_index))
+        rec.check(new < len(flat) and float(flat[new]) == float(labels[old]), f"{fp}/after-clip-values",
+                  f"{label}: flattened botz of the clipped dataset at the cell that was {old}", float(labels[old]),
+                  float(flat[new]) if new < len(flat) else None)
 
 
 def check_grid_polygons(rec, fp, label, truth, mask, out_polys, in_polys):
